@@ -114,10 +114,24 @@ func builtinDateSetTime(call FunctionCall) Value {
 }
 
 func builtinDateBeforeSet(call FunctionCall, argumentLimit int, timeLocal bool) (*object, *dateObject, *ecmaTime, []int) {
+	return builtinDateBeforeSetYear(call, argumentLimit, timeLocal, false)
+}
+
+// builtinDateBeforeSetYear is builtinDateBeforeSet for the setters that replace the year: for those an
+// invalid date is not final, "if this time value is NaN, let t be +0" (15.9.5.40, 15.9.5.41, B.2.5).
+func builtinDateBeforeSetYear(call FunctionCall, argumentLimit int, timeLocal, nanAsZero bool) (*object, *dateObject, *ecmaTime, []int) {
 	obj := call.thisObject()
 	date := dateObjectOf(call.runtime, call.thisObject())
 	if date.isNaN {
-		return nil, nil, nil, nil
+		if !nanAsZero {
+			return nil, nil, nil, nil
+		}
+		location := time.UTC
+		if timeLocal {
+			location = time.Local //nolint:gosmopolitan
+		}
+		date = dateObject{}
+		date.SetTime(time.Date(1970, time.January, 1, 0, 0, 0, 0, location))
 	}
 
 	if argumentLimit > len(call.ArgumentList) {
@@ -564,7 +578,7 @@ func builtinDateSetUTCMonth(call FunctionCall) Value {
 }
 
 func builtinDateSetYear(call FunctionCall) Value {
-	obj, date, ecmaTime, value := builtinDateBeforeSet(call, 1, true)
+	obj, date, ecmaTime, value := builtinDateBeforeSetYear(call, 1, true, true)
 	if ecmaTime == nil {
 		return NaNValue()
 	}
@@ -581,7 +595,7 @@ func builtinDateSetYear(call FunctionCall) Value {
 }
 
 func builtinDateSetFullYear(call FunctionCall) Value {
-	obj, date, ecmaTime, value := builtinDateBeforeSet(call, 3, true)
+	obj, date, ecmaTime, value := builtinDateBeforeSetYear(call, 3, true, true)
 	if ecmaTime == nil {
 		return NaNValue()
 	}
@@ -600,7 +614,7 @@ func builtinDateSetFullYear(call FunctionCall) Value {
 }
 
 func builtinDateSetUTCFullYear(call FunctionCall) Value {
-	obj, date, ecmaTime, value := builtinDateBeforeSet(call, 3, false)
+	obj, date, ecmaTime, value := builtinDateBeforeSetYear(call, 3, false, true)
 	if ecmaTime == nil {
 		return NaNValue()
 	}
